@@ -1,6 +1,8 @@
 //! `vh` — correspondence harness: runs the real rumqttc / rumqttd code in-process on
 //! generated inputs and prints one line per operation (`<op tokens> => <observed output>`),
 //! which the Lean driver `mdriver` replays on the model.
+mod router;
+mod routergen;
 mod topic;
 mod util;
 
@@ -14,6 +16,7 @@ fn main() {
     util::quiet_panics();
     match args[1].as_str() {
         "topic" => topic::run(&opts),
+        "router" => router::run(&opts),
         x => {
             eprintln!("unknown sub-command {x}");
             std::process::exit(2);
